@@ -211,3 +211,131 @@ mutant("c18-eq-caches-other", "C18", "cvss/cvss2.py",
                 self._eq = o.clean_vector()
             return self.clean_vector() == self._eq""",
        "== remembers the first object it was compared with")
+
+# ------------------------------------------------------------------------------ C19 (hidden state / ambient dependence)
+mutant("c19-env-score-memo-ignores-minor-version", "C19", edits=[
+    ("cvss/cvss3.py", "def round_up(value):", "_ENV_MEMO = {}\n\n\ndef round_up(value):"),
+    ("cvss/cvss3.py",
+     """        self.compute_modified_isc_base()
+        if self.minor_version == 0:""",
+     """        _key = tuple(sorted(self.metrics.items()))
+        if _key in _ENV_MEMO:
+            self.environmental_score = _ENV_MEMO[_key]
+            return
+        self.compute_modified_isc_base()
+        if self.minor_version == 0:"""),
+    ("cvss/cvss3.py",
+     """            self.environmental_score = round_up(
+                modified * self.get_value("E") * self.get_value("RL") * self.get_value("RC")
+            )
+""",
+     """            self.environmental_score = round_up(
+                modified * self.get_value("E") * self.get_value("RL") * self.get_value("RC")
+            )
+        _ENV_MEMO[_key] = self.environmental_score
+""")],
+    note="process-wide memo keyed by the metrics without the minor version: needs the same body under 3.0 and 3.1 in one history")
+mutant("c19-inherited-value-written-into-table", "C19", "cvss/cvss3.py",
+       """            if abbreviation not in self.metrics or self.metrics[abbreviation] == "X":
+                self.metrics[abbreviation] = self.metrics[abbreviation[1:]]""",
+       """            if abbreviation not in self.metrics or self.metrics[abbreviation] == "X":
+                self.metrics[abbreviation] = self.metrics[abbreviation[1:]]
+                METRICS_VALUES[abbreviation]["X"] = METRICS_VALUES[abbreviation[1:]][self.metrics[abbreviation[1:]]]""",
+       "constant table mutated as a side effect of a construction")
+mutant("c19-round-up-sets-ambient-rounding", "C19", "cvss/cvss3.py",
+       '    return value.quantize(D("0.1"), rounding=ROUND_CEILING)',
+       '    __import__("decimal").getcontext().rounding = ROUND_CEILING\n    return value.quantize(D("0.1"))',
+       "the caller's decimal context is changed")
+mutant("c19-v2-rounding-uses-ambient-context", "C19", "cvss/cvss2.py",
+       '    return value.quantize(D("0.1"), rounding=ROUND_HALF_UP)',
+       '    return value.quantize(D("0.1")) if value * 100 % 10 != 5 else value.quantize(D("0.1"), rounding=ROUND_HALF_UP)',
+       "non-tie values rounded with the ambient rounding mode (same result under the default context)")
+mutant("c19-scratch-global-read-by-get_value", "C19", edits=[
+    ("cvss/cvss3.py", "def round_up(value):", "_CURRENT = None\n\n\ndef round_up(value):"),
+    ("cvss/cvss3.py",
+     '''        string_value = self.metrics.get(abbreviation, "X")
+        if (abbreviation == "PR" and self.scope == "C") or (''',
+     '''        global _CURRENT
+        _CURRENT = self
+        string_value = _CURRENT.metrics.get(abbreviation, "X")
+        if (abbreviation == "PR" and self.scope == "C") or (''')],
+    note="sequentially invisible; fails only when another thread runs between the two lines")
+mutant("c19-module-memo-cleared-by-constructor", "C19", edits=[
+    ("cvss/cvss2.py", "def round_to_1_decimal(value):", "_MEMO = {}\n\n\ndef round_to_1_decimal(value):"),
+    ("cvss/cvss2.py",
+     "        self.parse_vector()\n        self.check_mandatory()\n        self.compute_base_score()",
+     "        _MEMO.clear()\n        self.parse_vector()\n        self.check_mandatory()\n        self.compute_base_score()"),
+    ("cvss/cvss2.py",
+     '''        string_value = self.metrics.get(abbreviation, "ND")
+        result = METRICS_VALUES[abbreviation][string_value]
+        return result''',
+     '''        if abbreviation not in _MEMO:
+            _MEMO[abbreviation] = self.metrics.get(abbreviation, "ND")
+        string_value = _MEMO[abbreviation]
+        result = METRICS_VALUES[abbreviation][string_value]
+        return result''')],
+    note="per-construction memo in a module-level dict: sequentially invisible, wrong under interleaved constructions")
+mutant("c19-stray-print-in-parser", "C19", "cvss/parser.py",
+       "        except (CVSSError, KeyError):\n            pass",
+       "        except (CVSSError, KeyError):\n            print('skipping', match)",
+       "library writes to stdout outside the CLI")
+mutant("c19-warnings-filter-in-constructor", "C19", "cvss/cvss4.py",
+       "        self.vector = vector\n        self.metrics = {}\n        self.missing_metrics = []\n\n        self.base_score = None\n        self.severity = None",
+       "        __import__('warnings').simplefilter('ignore')\n        self.vector = vector\n        self.metrics = {}\n        self.missing_metrics = []\n\n        self.base_score = None\n        self.severity = None")
+mutant("c19-sys-path-insert-at-import", "C19", "cvss/__init__.py",
+       '__version__ = "3.4"', '__version__ = "3.4"\n__import__("sys").path.insert(0, __import__("os").path.dirname(__file__))',
+       "import-time change of sys.path")
+mutant("c19-prec-lowered-at-import", "C19", "cvss/cvss3.py",
+       "def round_up(value):", "__import__('decimal').getcontext().prec = 12\n\n\ndef round_up(value):",
+       "import-time change of the importing thread's decimal context")
+mutant("c19-text-order-by-set-again", "C19", "cvss/parser.py",
+       "    return cvsss\n", "    return list(set(cvsss))\n", "hash-seed dependent list order (needs PYTHONHASHSEED != 0 and >= 2 vectors)")
+mutant("c19-clean-vector-cache-keyed-by-id", "C19", edits=[
+    ("cvss/cvss3.py", "def round_up(value):", "_CLEAN = {}\n\n\ndef round_up(value):"),
+    ("cvss/cvss3.py",
+     """        vector = []
+        for metric in METRICS_ABBREVIATIONS:
+            if metric in self.original_metrics:
+                value = self.original_metrics[metric]
+                if value != "X":
+                    vector.append("{0}:{1}".format(metric, value))
+        if output_prefix:
+            prefix = "CVSS:3.{0}/".format(self.minor_version)""",
+     """        if (id(self), output_prefix) in _CLEAN:
+            return _CLEAN[(id(self), output_prefix)]
+        vector = []
+        for metric in METRICS_ABBREVIATIONS:
+            if metric in self.original_metrics:
+                value = self.original_metrics[metric]
+                if value != "X":
+                    vector.append("{0}:{1}".format(metric, value))
+        if output_prefix:
+            prefix = "CVSS:3.{0}/".format(self.minor_version)"""),
+    ("cvss/cvss3.py",
+     '''        else:
+            prefix = ""
+        return prefix + "/".join(vector)
+
+    def severities(self):''',
+     '''        else:
+            prefix = ""
+        _CLEAN[(id(self), output_prefix)] = prefix + "/".join(vector)
+        return prefix + "/".join(vector)
+
+    def severities(self):''')],
+    note="cache keyed by id(self): stale entries are served to later objects that reuse the address (history-dependent)")
+mutant("c19-class-level-scratch-scope", "C19", "cvss/cvss3.py",
+       """        self.scope = self.metrics["S"]
+        self.modified_scope = self.metrics.get("MS", None)
+        if self.modified_scope in [None, "X"]:
+            self.modified_scope = self.scope""",
+       """        CVSS3._scope = self.metrics["S"]
+        self.modified_scope = self.metrics.get("MS", None)
+        self.scope = CVSS3._scope
+        if self.modified_scope in [None, "X"]:
+            self.modified_scope = self.scope""",
+       "class attribute used as scratch between two lines: interleaving only")
+mutant("c19-v4-lookup-table-pop", "C19", "cvss/cvss4.py",
+       "        value = CVSS_LOOKUP_GLOBAL[macroVector]\n",
+       "        value = CVSS_LOOKUP_GLOBAL[macroVector]\n        if macroVector == '212221':\n            CVSS_LOOKUP_GLOBAL['212221'] = 0.0\n",
+       "one rare macrovector (lowest) zeroes its own table entry after first use (0.1 -> 0.0 afterwards)")
